@@ -122,17 +122,28 @@ class MinMaxLengthType(DiagCodedType):
                 f"(Is: {data_length} bytes.)", EncodeError)
             data_length = self.max_length
 
+        # ensure that the termination delimiter is not encountered
+        # within the encoded value (the decoder looks for it after
+        # the minimum length).
+        termination_sequence = self.__termination_sequence()
+        if termination_sequence:
+            pos = raw_value.find(termination_sequence, self.min_length)
+            while pos >= 0:
+                if pos % len(termination_sequence) == 0:
+                    odxraise(
+                        f"The value {internal_value!r} contains the termination "
+                        f"sequence 0x{termination_sequence.hex()} of the parameter", EncodeError)
+                    break
+                pos = raw_value.find(termination_sequence, pos + 1)
+
         encode_state.emplace_atomic_value(
-            internal_value=raw_value,
+            internal_value=raw_value[:data_length].ljust(data_length, b'\x00'),
             used_mask=None,
             bit_length=8 * data_length,
             base_data_type=DataType.A_BYTEFIELD,
             base_type_encoding=None,
             is_highlow_byte_order=True,
         )
-
-        # TODO: ensure that the termination delimiter is not
-        # encountered within the encoded value.
 
         odxassert(
             self.termination != Termination.END_OF_PDU or encode_state.is_end_of_pdu,
